@@ -182,7 +182,7 @@ pub fn parse_opts(tok: &str) -> Options {
                 o.deflate = Deflaters::Zopfli { iterations: NonZeroU8::new(v.parse().unwrap()).unwrap() }
             }
             "fast" => o.fast_evaluation = v == "1",
-            "timeout" => o.timeout = Some(Duration::from_secs(v.parse().unwrap())),
+            "timeout" => o.timeout = if v == "-" { None } else { Some(Duration::from_secs(v.parse().unwrap())) },
             _ => panic!("bad option key {k}"),
         }
     }
